@@ -109,6 +109,9 @@ def build_query(hyps, goal, depth=2):
 
 
 def run_cvc5(smt2: str, timeout_s: int):
+    # z3 prints its internal seq.nth_i / seq.nth_u (in-bounds / out-of-bounds parts of seq.nth); cvc5's seq.nth is
+    # total with an unspecified out-of-bounds value, which is the same thing
+    smt2 = smt2.replace("seq.nth_i", "seq.nth").replace("seq.nth_u", "seq.nth")
     with tempfile.NamedTemporaryFile("w", suffix=".smt2", delete=False, dir=os.environ.get("TMPDIR", "/tmp")) as f:
         f.write("(set-logic ALL)\n" + smt2)
         path = f.name
@@ -134,15 +137,32 @@ def model_summary(m: z3.ModelRef, limit=60):
 
 
 def discharge(ob: Obligation, timeout_ms=20000, cross_check=False, depth=2) -> Result:
+    """z3 with a short budget, then cvc5, then z3 with the full budget; `sat` is retried with deeper unfolding"""
     t0 = time.time()
     try:
         q = build_query(ob.hyps, ob.goal, depth)
         s = z3.Solver()
-        s.set("timeout", timeout_ms)
+        s.set("timeout", min(5000, timeout_ms))
         s.add(*q)
         r = s.check()
-        backend = "z3"
-        detail = ""
+        backend, detail = "z3", ""
+        if r == z3.unknown:
+            c = run_cvc5(s.to_smt2(), max(10, timeout_ms // 2000))
+            if c == "unsat":
+                return Result(ob.name, "discharged", "cvc5", time.time() - t0, "", ob.kind, ob.line)
+            if c != "sat":
+                s.set("timeout", timeout_ms)
+                r = s.check()
+                if r == z3.unknown:
+                    return Result(ob.name, "unknown", "z3,cvc5", time.time() - t0, f"z3: {s.reason_unknown()}; cvc5: {c}", ob.kind, ob.line)
+            else:
+                s.set("timeout", timeout_ms)
+                r = s.check()
+                if r == z3.unknown:
+                    r2 = discharge(ob, timeout_ms, False, depth + 2) if depth < 4 else None
+                    if r2 is not None and r2.status == "discharged":
+                        return r2
+                    return Result(ob.name, "failed", "cvc5", time.time() - t0, "cvc5: sat (no model extracted); z3: unknown", ob.kind, ob.line)
         if r == z3.unsat:
             status = "discharged"
             if cross_check:
@@ -151,7 +171,7 @@ def discharge(ob: Obligation, timeout_ms=20000, cross_check=False, depth=2) -> R
                     status, detail = "backend-disagreement", "z3 unsat, cvc5 sat"
                 elif c == "unsat":
                     backend = "z3+cvc5"
-        elif r == z3.sat:
+        else:
             status = "failed"
             detail = model_summary(s.model())
             # a deeper unfolding may still refute: spec functions are only unfolded to a fixed depth
@@ -160,14 +180,6 @@ def discharge(ob: Obligation, timeout_ms=20000, cross_check=False, depth=2) -> R
                 if r2.status == "discharged":
                     r2.seconds = time.time() - t0
                     return r2
-        else:
-            c = run_cvc5(s.to_smt2(), max(10, timeout_ms // 1000))
-            if c == "unsat":
-                status, backend = "discharged", "cvc5"
-            elif c == "sat":
-                status, backend, detail = "failed", "cvc5", "cvc5: sat (no model extracted)"
-            else:
-                status, detail = "unknown", f"z3: {s.reason_unknown()}; cvc5: {c}"
         return Result(ob.name, status, backend, time.time() - t0, detail, ob.kind, ob.line)
     except z3.Z3Exception as e:
         return Result(ob.name, "error", "z3", time.time() - t0, str(e), ob.kind, ob.line)
